@@ -32,6 +32,8 @@ fn run_generic(mode: Mode, args: &Args, prefix: &str, rule: &str) {
 				c.max_total = 160 << 20;
 				c.max_case = 3 << 20;
 			}
+			// every registry type gets a share, so that the model is compared on all of them
+			c.quota = c.max_total / 90;
 			c
 		},
 		oracle: Oracle::new(),
@@ -41,11 +43,13 @@ fn run_generic(mode: Mode, args: &Args, prefix: &str, rule: &str) {
 	};
 	// the recursive derived type first (its model is Rec.rdec, not a universe type), so that its
 	// cases are inside the literal budget of the run
+	let quota = std::mem::replace(&mut cx.cases.quota, 0);
 	match cx.only.clone() {
 		None => tree::run(&mut cx),
 		Some(o) if o[0] == "Tree" => tree::replay(&mut cx, &o),
 		_ => {},
 	}
+	cx.cases.quota = quota;
 	{
 		let cx = &mut cx;
 		for_all_types!(run_type, cx);
